@@ -71,7 +71,8 @@ Definition doc_text_tr (n : nat) (labels : list string) (ps : list (nat * string
   taxa_text n labels (nl ++ "BEGIN TREES;" ++ trees_text_tr ps es nl).
 
 Definition doc_state_tr (n : nat) (labels : list string) (ps : list (nat * string)) (es : list entry) : nexus_st :=
-  mkNS (Z.of_nat n) (Some labels) (Some (map entry_name es, map entry_body es)) (Some (tr_table ps [])) None "*"%char "-"%char.
+  mkNS (Z.of_nat n) (Some labels) (Some (map entry_name es, map entry_body es)) (Some (tr_table ps [])) None "*"%char "-"%char
+       (map (fun _ => Some (tr_table ps [])) (map entry_name es)).
 
 Section Doc.
   Variable nparse : string -> utree + string.
@@ -91,8 +92,8 @@ Section Doc.
     rewrite parse_taxa_spec; [|exact Hn|exact HL|exact ND|unfold taxa_text in *; len]. tk.
     fuel1 fuel. cbn [main_loop]. rewrite sc_nl. tk.
     fuel1 fuel. cbn [main_loop]. rewrite sc_begin_trees. tk. rewrite sc_trees. rewrite sc_semi. tk.
-    cbn [ns_table nexus0 ns_taxantax ns_taxlabels ns_trees ns_data ns_missing ns_gap] in *.
-    rewrite parse_trees_tr_spec; [|exact HP|exact HE|unfold taxa_text in *; len]. tk. cbn [tnames tstrings ttable].
+    cbn [ns_table nexus0 ns_taxantax ns_taxlabels ns_trees ns_data ns_missing ns_gap ns_tabs] in *.
+    rewrite parse_trees_tr_spec; [|exact HP|exact HE|unfold taxa_text in *; len]. tk. cbn [tnames tstrings ttable app].
     fuel1 fuel. cbn [main_loop]. rewrite sc_nl0. tk.
     fuel1 fuel. cbn [main_loop]. rewrite sc_eof. tk. reflexivity.
   Qed.
@@ -197,17 +198,18 @@ Section Main.
   Variable nparse : string -> utree + string.
 
   Lemma build_trees_ok_tr : forall (labels : list string) tbl (st : nexus_st) (its : list (string * string * utree * utree)),
-      ns_table st = Some tbl -> ns_taxlabels st = Some labels ->
+      ns_taxlabels st = Some labels ->
       Forall (fun x => let '(_, s, t, t') := x in
                        nparse (s ++ ";") = inl t /\ rename_tree tbl t = inl t' /\
                        forallb (fun n => mem n labels) (tip_names t') = true /\
                        length (tips t') = length labels) its ->
-      build_trees nparse st (map (fun x => fst (fst (fst x))) its) (map (fun x => snd (fst (fst x))) its) =
+      build_trees nparse st (map (fun x => fst (fst (fst x))) its) (map (fun x => snd (fst (fst x))) its)
+                  (map (fun _ => Some tbl) (map (fun x => fst (fst (fst x))) its)) =
       inl (map (fun x => (fst (fst (fst x)), snd x)) its).
   Proof.
-    intros labels tbl st its HT HL. induction its as [|[[[n s] t] t'] r IH]; intros H; [reflexivity|].
+    intros labels tbl st its HL. induction its as [|[[[n s] t] t'] r IH]; intros H; [reflexivity|].
     inversion H as [|? ? H0 Hr]; subst. cbn in H0. destruct H0 as [H1 [H2 [H3 H4]]].
-    cbn [map fst snd build_trees]. rewrite H1. rewrite HT, HL. rewrite H2. rewrite H3. cbn [negb].
+    cbn [map fst snd build_trees]. rewrite H1. rewrite H2. rewrite HL. rewrite H3. cbn [negb].
     rewrite H4. rewrite Nat.eqb_refl. cbn [negb]. rewrite (IH Hr). reflexivity.
   Qed.
 
@@ -237,7 +239,7 @@ Section Main.
         destruct He as [it [He Hi]]. subst e. rewrite Forall_forall in HN.
         exact (proj1 (newick_ok_entry (fst it) _ (HN it Hi))). }
     unfold finish, doc_state_tr.
-    cbn [ns_taxantax ns_taxlabels ns_trees ns_table ns_data ns_missing ns_gap].
+    cbn [ns_taxantax ns_taxlabels ns_trees ns_table ns_data ns_missing ns_gap ns_tabs].
     rewrite <- labels_length. unfold zlength.
     replace (Z.of_nat (length (labels_of l)) =? -1)%Z with false by (symmetry; apply Z.eqb_neq; lia).
     rewrite Z.eqb_refl. cbn [negb andb orb Ascii.eqb Bool.eqb].
@@ -250,7 +252,7 @@ Section Main.
     assert (E2 : map entry_body (entries_of wnewick (rendered [] l)) = map (fun x => snd (fst (fst x))) its).
     { unfold its, entries_of. rewrite !map_map. reflexivity. }
     rewrite E1, E2.
-    rewrite (build_trees_ok_tr (labels_of l) tbl); [| reflexivity | reflexivity |].
+    rewrite (build_trees_ok_tr (labels_of l) tbl); [| reflexivity |].
     - f_equal. f_equal. unfold its. rewrite map_map. reflexivity.
     - unfold its. apply Forall_forall. intros x Hx. apply in_map_iff in Hx. destruct Hx as [it [Hx Hi]]. subst x.
       rewrite Forall_forall in HT. destruct (HT it Hi) as [A [B [C [D E]]]].
